@@ -136,6 +136,29 @@ static void run_case(const JVal& in) {
         Fq12* d = in.num("alias", 0) == 1 ? &a : &r;
         final_exponentiation(*d, a);
         out.set("r", J(*d));
+    } else if (op == "pair.long") {
+        // n records of the pair (p, q), each with operand objects of its own; the identity replaces p (idside "P") or q at the listed positions
+        size_t n = (size_t) in["n"].i;
+        bool prepared = in.str("variant", "affine") == "prepared";
+        G1Affine p; G2Affine q; U(in["p"], p); U(in["q"], q);
+        std::vector<G1Affine> ps(n, p); std::vector<G2Affine> qs(n, q);
+        for (auto& x : in["idpos"].a) { size_t i = (size_t) x.i; if (i >= n) continue; if (in.str("idside", "P") == "P") ps[i].copy(G1Affine::zero); else qs[i].copy(G2Affine::zero); }
+        std::vector<G2Prepared> preps(prepared ? n : 0);
+        std::vector<embedded_pairing_bls12_381_affine_pair_t> aps;
+        std::vector<embedded_pairing_bls12_381_prepared_pair_t> pps;
+        for (size_t i = 0; i < n; i++) {
+            if (!prepared) {
+                embedded_pairing_bls12_381_affine_pair_t ap; memset(&ap, 0xA5, sizeof ap);
+                ap.g1 = (embedded_pairing_bls12_381_g1affine_t*) &ps[i]; ap.g2 = (embedded_pairing_bls12_381_g2affine_t*) &qs[i]; aps.push_back(ap);
+            } else {
+                preps[i].prepare(qs[i]);
+                embedded_pairing_bls12_381_prepared_pair_t pp; memset(&pp, 0xA5, sizeof pp);
+                pp.g1 = (embedded_pairing_bls12_381_g1affine_t*) &ps[i]; pp.g2 = (embedded_pairing_bls12_381_g2prepared_t*) &preps[i]; pps.push_back(pp);
+            }
+        }
+        Fq12 r; memset(&r, 0xA5, sizeof r);
+        embedded_pairing_bls12_381_pairing_sum((embedded_pairing_bls12_381_fq12_t*) &r, aps.empty() ? nullptr : aps.data(), aps.size(), pps.empty() ? nullptr : pps.data(), pps.size());
+        out.set("r", J(r));
     } else if (op == "gt.random") {
         Fq12 base, r; U(in["a"], base); memset(&r, 0xA5, sizeof r);
         BigInt<256> y; memset(&y, 0xA5, sizeof y);
